@@ -236,9 +236,10 @@ class Program:
             from .inline import load_inventory_extras
             from .callstyle import restore_call_style, propagate_new_constants
             base_globals, style = load_inventory_extras()
-            from .callstyle import loops_to_comprehensions
+            from .callstyle import loops_to_comprehensions, membership_set_aliases
             for mn, _, _, t in parsed:
                 self.inline_log += propagate_new_constants(t, mn, base_globals)
+                membership_set_aliases(t)
                 k = loops_to_comprehensions(t)
                 if k:
                     self.inline_log.append(f"{mn}: {k} single-statement building loop(s) read as comprehensions")
